@@ -12,6 +12,10 @@ def run(tier, seed, limit=0):
     if limit:
         scs = scs[:limit]
     chk.run_scenarios(scs, MODULE, fn=RUNNER, batch_events=2500)
+    if tier != "quick":
+        # every sample sequence on the requirement machine: a cross hit comes with a hit of each crossed coverpoint, at most one
+        # per sample, none while a gate is off (action properties OneHitPerSample, invariant CrossBounded)
+        chk.run_mc("MC_VscCov", {"MaxInst": 2, "MaxHits": 2, "AtL": 1, "W1": 1, "W2": 1}, workers=12, label="coverage machine: cross hits")
     return chk.finish(LEVEL, "random bin specifications (explicit bins, arrays with/without count, unordered/adjacent disjoint ranges, "
                       "ignore/illegal sets, auto-bins with auto_bin_max, enum, iff, signed types) each sampled with every value of the "
                       "type plus repeats and gated-off samples; TLC recomputes Partition(Values \\ Excluded, n) and every counter after "
